@@ -17,6 +17,7 @@ Decided clauses:
   R16.5 (E11, per-iteration flows) sodium_unpad remembers what it scanned: a loop-carried value other than the verdict receives bit k
         of every scanned byte in its bit k (an OR-accumulator) and each of its bits can influence the verdict of a later
         iteration - the structural part of "the marker is followed only by zeros".
+  R16.6 (E16) sodium_pad / sodium_unpad write no static object (re-entrancy).
 NOT decided: position of the 0x80 marker, round-trip, the rest of the rejection set (value-level).
 """
 from .. import terms as T
@@ -118,6 +119,10 @@ def run(ctx, chk):
             chk.ob("R16.2", unpad, "padded_buflen < blocksize: rejected without reading", not rd and p.ret_zeroness() == "NZ",
                    loc=unpad.loc(p.end_iid), path=p if rd else None, key="R16.2 sodium_unpad short")
     width_rule(ctx, prog, chk)
+    # R16.6: "for every schedule": padding keeps no state in static storage (E16) - a file-scope mask shared by two threads that pad
+    # unrelated buffers clears data bytes / keeps stale ones
+    from .. import staticstate
+    staticstate.static_state_rule(prog, chk, "R16.6", ("sodium/utils.c",), floor=2, only_functions=("sodium_pad", "sodium_unpad"))
 
 
 def width_rule(ctx, prog, chk):
